@@ -125,11 +125,19 @@ def is_value_of(ann, w) -> bool:  # noqa: C901
 class UnboundQlassf:
     """Class representing a qlassf function with unbound parameters"""
 
-    def __init__(self, fun_ast, _do_translate, parameters: Dict[str, Any], original_f):
+    def __init__(
+        self,
+        fun_ast,
+        _do_translate,
+        parameters: Dict[str, Any],
+        original_f,
+        def_originals: Optional[Dict[str, Callable]] = None,
+    ):
         self.fun_ast = fun_ast
         self._do_translate = _do_translate
         self.parameters: Dict[str, Any] = parameters
         self.original_f = original_f
+        self.def_originals: Dict[str, Callable] = dict(def_originals or {})
 
     @property
     def expressions(self):
@@ -187,7 +195,11 @@ class UnboundQlassf:
 
             ns: Dict = {}
             try:
-                exec(c, globals(), ns)  # explicit namespace works in >=3.13 and <3.13
+                # the bound function sees this module's globals plus the callables of the
+                # definitions, like the original_f of a function without parameters
+                glob = dict(globals())
+                glob.update(self.def_originals)
+                exec(c, glob, ns)  # explicit namespace works in >=3.13 and <3.13
                 original_f = ns.get(fun_ast.body[0].name)
             except Exception:
                 # fallback: partial on original function
@@ -422,7 +434,9 @@ class QlassF(QCircuitWrapper):
                 params[arg.arg] = arg.annotation.slice
 
         if len(params.items()) > 0:
-            return UnboundQlassf(fun_ast, _do_translate, params, original_f)
+            return UnboundQlassf(
+                fun_ast, _do_translate, params, original_f, def_originals
+            )
         else:
             # Else, return the translation
             return _do_translate(fun_ast, original_f)
